@@ -23,6 +23,7 @@ theorem step_now_eq {s s' : Sender ℚ} {a : Act ℚ} {outs : List (Tx ℚ)} (h 
   | tick t => exact absurd rfl (hnt t)
   | ack x =>
     cases ack_cases h.inv (ha x rfl) hs with
+    | stale _ e1 _ => subst e1; rfl
     | early _ _ e1 _ => subst e1; rfl
     | dup _ _ _ _ _ _ _ e1 _ _ => subst e1; rfl
     | new _ _ _ e1 _ _ _ => subst e1; rfl
